@@ -634,6 +634,14 @@ var rulePlainReturns = &core.Rule{ID: "R11.3", Min: 4,
 									under = true
 								}
 							}
+							if !under {
+								// a single-pass classifier over byte classes: decided on its flag machine
+								if fm, err := tabulateFlagMachine(c, h); err == nil {
+									okM, whyM := fm.utf8OnlyForASCII()
+									s.Check(okM, h.Name()+": "+returnOrdinal(r)+" utf-8", c.Pos(r.Pos()), fmt.Sprintf("flag machine (%d flags x 256 bytes): utf-8 only for 7-bit content, always for ASCII text", fm.nflags), "the single-pass classifier answers utf-8 wrongly: "+whyM)
+									continue
+								}
+							}
 							s.Check(under, h.Name()+": "+returnOrdinal(r)+" utf-8", c.Pos(r.Pos()), "under utf8.Valid", "a helper of the plain sniffer answers utf-8 without UTF-8 validation: bytes that are not valid UTF-8 (for instance NEL 0x85 alone) would be reported as utf-8")
 						}
 					}
@@ -649,6 +657,214 @@ var rulePlainReturns = &core.Rule{ID: "R11.3", Min: 4,
 			}
 		}
 	}}
+
+// flagMachine tabulates a single-pass classifier h(content) string: one range
+// loop over the whole parameter, at most three loop-carried boolean flags, a
+// verdict (constant string) returned inside the loop or computed from the flags
+// after it. For every flag state and every byte value one iteration is
+// evaluated; the result is the transition table, the in-loop verdicts, and the
+// verdict after the loop per state.
+type flagMachine struct {
+	nflags int
+	init   int                 // initial state (bit i = flag i)
+	step   map[int][256]int    // state -> byte -> next state, or -1 when the iteration returns
+	ret    map[int][256]string // state -> byte -> verdict returned inside the loop (when step is -1)
+	final  map[int]string      // state -> verdict after the loop
+}
+
+func tabulateFlagMachine(c *core.Ctx, h *ssa.Function) (*flagMachine, error) {
+	if h.Blocks == nil || len(h.Params) != 1 {
+		return nil, fmt.Errorf("not a function of the content alone")
+	}
+	rs := fde.FindRangeOver(h, h.Params[0])
+	if len(rs) != 1 {
+		return nil, fmt.Errorf("%d range loops over the content", len(rs))
+	}
+	r := rs[0]
+	var flags []*ssa.Phi
+	for _, in := range r.Header.Instrs {
+		ph, ok := in.(*ssa.Phi)
+		if !ok {
+			break
+		}
+		if ssa.Value(ph) == r.Index || ph == r.Phi {
+			continue
+		}
+		if bt, ok := ph.Type().Underlying().(*types.Basic); !ok || bt.Kind() != types.Bool {
+			return nil, fmt.Errorf("loop-carried value %s is not a flag", ph.Name())
+		}
+		flags = append(flags, ph)
+	}
+	if len(flags) > 3 {
+		return nil, fmt.Errorf("%d flags", len(flags))
+	}
+	m := &flagMachine{nflags: len(flags), step: map[int][256]int{}, ret: map[int][256]string{}, final: map[int]string{}}
+	// initial state: the constants on the entry edge
+	for k, pr := range r.Header.Preds {
+		if r.Header.Dominates(pr) {
+			continue
+		}
+		for i, ph := range flags {
+			v, ok := core.ConstBool(ph.Edges[k])
+			if !ok {
+				return nil, fmt.Errorf("flag %s does not start as a constant", ph.Name())
+			}
+			if v {
+				m.init |= 1 << uint(i)
+			}
+		}
+	}
+	constStr := func(ev *fde.Eval, x fde.Exit) (string, bool) {
+		v := x.Ret.Results[0]
+		if k, ok := core.ConstString(v); ok {
+			return k, true
+		}
+		if cv, ok := x.ValAt(ev, v); ok && cv.Kind() == constant.String {
+			return constant.StringVal(cv), true
+		}
+		return "", false
+	}
+	for st := 0; st < 1<<uint(len(flags)); st++ {
+		env := func() fde.Env {
+			e := fde.Env{}
+			for i, ph := range flags {
+				e[ph] = constant.MakeBool(st&(1<<uint(i)) != 0)
+			}
+			return e
+		}
+		var row [256]int
+		var rrow [256]string
+		for b := 0; b < 256; b++ {
+			ev := newEval(c)
+			ev.Env = env()
+			ev.Env[r.Load] = constant.MakeInt64(int64(b))
+			exits, err := ev.Walk(r.Body, r.Header, func(blk *ssa.BasicBlock) bool { return blk == r.Header }, 0)
+			if err != nil || len(exits) != 1 {
+				return nil, fmt.Errorf("state %d byte %#02x: iteration not evaluable (%v)", st, b, err)
+			}
+			x := exits[0]
+			if x.Ret != nil {
+				k, ok := constStr(ev, x)
+				if !ok {
+					return nil, fmt.Errorf("state %d byte %#02x: non-constant verdict inside the loop", st, b)
+				}
+				row[b], rrow[b] = -1, k
+				continue
+			}
+			next := 0
+			for i, ph := range flags {
+				var nv ssa.Value
+				for k, pr := range r.Header.Preds {
+					if pr == x.From {
+						nv = ph.Edges[k]
+					}
+				}
+				if nv == nil {
+					return nil, fmt.Errorf("back edge not found")
+				}
+				cv, ok := x.ValAt(ev, nv)
+				if !ok || cv.Kind() != constant.Bool {
+					return nil, fmt.Errorf("state %d byte %#02x: flag %s not evaluable", st, b, ph.Name())
+				}
+				if constant.BoolVal(cv) {
+					next |= 1 << uint(i)
+				}
+			}
+			row[b] = next
+		}
+		m.step[st], m.ret[st] = row, rrow
+		ev := newEval(c)
+		ev.Env = env()
+		exits, err := ev.Walk(r.Done, r.Header, nil, 0)
+		if err != nil || len(exits) != 1 || exits[0].Ret == nil {
+			return nil, fmt.Errorf("state %d: verdict after the loop not evaluable (%v)", st, err)
+		}
+		k, ok := constStr(ev, exits[0])
+		if !ok {
+			return nil, fmt.Errorf("state %d: non-constant verdict after the loop", st)
+		}
+		m.final[st] = k
+	}
+	return m, nil
+}
+
+// utf8OnlyForASCII decides, on the machine, the two clauses of the property a
+// single-pass classifier is responsible for: (a) once a byte >= 0x80 was
+// consumed no continuation ends in the verdict utf-8 (neither inside nor after
+// the loop); (b) a content of printable ASCII, TAB, LF and CR only ends in utf-8.
+func (m *flagMachine) utf8OnlyForASCII() (bool, string) {
+	reach := map[int]bool{m.init: true}
+	work := []int{m.init}
+	for len(work) > 0 {
+		st := work[0]
+		work = work[1:]
+		for b := 0; b < 256; b++ {
+			if n := m.step[st][b]; n >= 0 && !reach[n] {
+				reach[n] = true
+				work = append(work, n)
+			}
+		}
+	}
+	// states from which utf-8 can still be reached
+	canUTF8 := map[int]bool{}
+	for changed := true; changed; {
+		changed = false
+		for st := range reach {
+			if canUTF8[st] {
+				continue
+			}
+			ok := m.final[st] == "utf-8"
+			for b := 0; b < 256 && !ok; b++ {
+				n := m.step[st][b]
+				if (n < 0 && m.ret[st][b] == "utf-8") || (n >= 0 && canUTF8[n]) {
+					ok = true
+				}
+			}
+			if ok {
+				canUTF8[st] = true
+				changed = true
+			}
+		}
+	}
+	for st := range reach {
+		for b := 0x80; b < 256; b++ {
+			n := m.step[st][b]
+			if (n < 0 && m.ret[st][b] == "utf-8") || (n >= 0 && canUTF8[n]) {
+				return false, fmt.Sprintf("after the byte %#02x the classifier can still answer utf-8 although the content is not valid UTF-8", b)
+			}
+		}
+	}
+	// (b) closure of the initial state under ASCII text bytes
+	isText := func(b int) bool { return b == '\t' || b == '\n' || b == '\r' || (b >= 0x20 && b <= 0x7e) }
+	cl := map[int]bool{m.init: true}
+	work = []int{m.init}
+	for len(work) > 0 {
+		st := work[0]
+		work = work[1:]
+		for b := 0; b < 256; b++ {
+			if !isText(b) {
+				continue
+			}
+			n := m.step[st][b]
+			if n < 0 {
+				return false, fmt.Sprintf("plain ASCII text is rejected inside the loop at byte %#02x", b)
+			}
+			if !cl[n] {
+				cl[n] = true
+				work = append(work, n)
+			}
+		}
+	}
+	for st := range cl {
+		if st == m.init && len(cl) > 1 {
+			// the empty content is judged by the caller
+		}
+		if st != m.init && m.final[st] != "utf-8" {
+			return false, "content made of printable ASCII, TAB, LF and CR only is not answered with utf-8"
+		}
+	}
+	return true, ""
+}
 
 // sameLatinCall: v is the Latin fallback call, or another call of the same function on the same buffer.
 func sameLatinCall(v ssa.Value, latin *ssa.Call) bool {
